@@ -2,6 +2,7 @@
 from lib import pipeline
 
 LEVEL = "proof"
+RELEASE_TOO = True
 MODEL_FILES = ["Model/View.v", "Model/Traversal.v"]
 THEOREMS = []
 STREAMS = [("C08", 4000, 150000)]
